@@ -33,9 +33,10 @@ type creationPlan struct {
 }
 
 const (
-	gasCreate = 1500000
-	gasKill   = 400000
-	gasExtra  = 300000 // on top of the contract value fee: "contract-style gas"
+	gasCreate     = 1500000
+	gasKill       = 400000
+	gasCreateFail = 600000
+	gasExtra      = 300000 // on top of the contract value fee: "contract-style gas"
 )
 
 func (e *Engine) hasCode(a common.Address) bool {
@@ -107,6 +108,20 @@ func (e *Engine) genContract(kind string, u *User, pick int) *MTx {
 		m := e.record(u, tx, "create")
 		m.Target = addr
 		return m
+	case "createfail":
+		// a creation whose constructor reverts / hits INVALID / returns oversized
+		// code: admitted, included, charged, fails in execution
+		cost := new(big.Int).Mul(big.NewInt(gasCreateFail), GasPrice)
+		if !e.canAfford(u, cost) {
+			u = e.richUser(pick)
+			if u == nil {
+				return nil
+			}
+		}
+		e.codeVariant++
+		code := txgen.FailingCreationCode(pick%3, byte(e.codeVariant))
+		tx := signedTx(u, types.NewContractCreation(e.nextFree(u), big.NewInt(0), gasCreateFail, nil, code))
+		return e.record(u, tx, "createfail")
 	case "kill":
 		cs := e.aliveContracts()
 		if len(cs) == 0 || !e.canAfford(u, new(big.Int).Mul(big.NewInt(gasKill), GasPrice)) {
@@ -174,6 +189,10 @@ func (e *Engine) applyWithReceipt(tx types.Tx, r *types.Receipt) bool {
 	fee := new(big.Int).Mul(new(big.Int).SetUint64(r.GasUsed), t.GasPrice())
 	a.Balance = new(big.Int).Sub(a.Balance, fee)
 	success := r.Status == types.ReceiptStatusSuccessful
+	if !success {
+		e.failed = append(e.failed, tx)
+		e.C.Probe("committed-failed-tx")
+	}
 	var to common.Address
 	if t.To() != nil {
 		to = *t.To()
@@ -219,6 +238,11 @@ func (e *Engine) checkLedger() {
 	st := e.W.Chain.App.GetLatestStateDB()
 	for _, u := range e.W.Users {
 		a := e.W.Led.Get(u.Addr)
+		if sn := st.GetNonce(u.Addr); sn != a.Nonce && e.Opt.Prop == "C07" {
+			// the ledger counts executed transactions (from blocks and receipts)
+			e.Violate("nonce-state", "committed-nonce-not-executed-count", "after block %d the committed state holds nonce %d for u%d, but the chain has executed %d nonce-consuming transactions of that sender (genesis nonce included): an executed transaction did not advance the nonce by exactly one and its bytes stay valid", e.W.Height(), sn, u.Idx, a.Nonce)
+			return
+		}
 		if sb, sn := st.GetBalance(u.Addr), st.GetNonce(u.Addr); sb.Cmp(a.Balance) != 0 || sn != a.Nonce {
 			e.C.HarnessTrouble("ledger model disagrees with the committed state for u%d at height %d: balance %v vs %v, nonce %d vs %d", u.Idx, e.W.Height(), a.Balance, sb, a.Nonce, sn)
 			e.Stop()
